@@ -362,5 +362,47 @@ def run(ck):
     ok = len(lp) == 1 and u(lp[0].iter) == 'graph' and 'key = get_attrs(graph.nodes[node_idx], attrs)' in u(lp[0]) and 'residues[key].add(node_idx)' in u(lp[0]) \
         and not any(isinstance(n, (ast.If, ast.Continue)) for n in ast.walk(lp[0]))
     ck.ob('PROV-partition', gu.loc(crf), ok, 'collect_residues puts every node into the group of its own key, unconditionally (a partition of all atoms)', key='PROV-partition|collect_residues')
+    cli_modes(ck)
     shared.truthy_zero(ck, [MB, 'vermouth/graph_utils.py'])
     ck.assume('KD-tree search completeness and near-threshold floating point are not decided; radii oracle = Bondi 1964 (embedded table)')
+
+
+def cli_modes(ck):
+    """bin/martinize2: `-bonds-from` selects the criteria that are applied -- name: the block's bonds only, distance: the distance criterion only, both: both,
+    none: neither (only the bonds of the input file).  The two flags are interpreted over the option's own choices and followed to MakeBonds."""
+    from .. import interp
+    cli = ck.index.mod('bin/martinize2')
+    ent = cli.func('entry')
+    choices = None
+    for c in ast.walk(cli.tree):
+        if isinstance(c, ast.Call) and call_attr(c) == 'add_argument' and c.args and try_fold(c.args[0], default=None) == '-bonds-from':
+            ch = kwarg(c, 'choices')
+            choices = try_fold(ch, default=None) if ch is not None else None
+    ck.need(choices, 'the -bonds-from option (with its choices) was not found in bin/martinize2')
+    want = {'name': (True, False), 'distance': (False, True), 'both': (True, True), 'none': (False, False)}
+    name_def, dist_def = single_def(ent, 'bonds_from_name'), single_def(ent, 'bonds_from_dist')
+    ck.need(name_def is not None and dist_def is not None, 'bonds_from_name / bonds_from_dist are no longer single assignments in entry()')
+    bad = None
+    try:
+        for choice in choices:
+            got = (bool(interp.ev(name_def, {'args.bonds_from': choice})), bool(interp.ev(dist_def, {'args.bonds_from': choice})))
+            if choice not in want:
+                bad = 'an undocumented choice {!r}'.format(choice)
+            elif got != want[choice]:
+                bad = '-bonds-from {} applies (names, distances) = {}, documented {}'.format(choice, got, want[choice])
+            if bad:
+                break
+    except interp.Unsupported as err:
+        bad = 'could not be interpreted: {}'.format(err)
+    ck.ob('KW-wiring', cli.loc(cli.stmt_of(name_def)), bad is None, 'the criteria applied are the ones -bonds-from names ({} choices interpreted){}'.format(
+        len(choices), '' if bad is None else ' -- ' + bad), key='KW-wiring|bonds-from|table')
+    p2u = cli.func('pdb_to_universal')
+    calls = [c for c in walk_local(ent) if isinstance(c, ast.Call) and call_name(c) == 'pdb_to_universal']
+    mk = [c for c in walk_local(p2u) if isinstance(c, ast.Call) and (call_name(c) or '').split('.')[-1] == 'MakeBonds']
+    ok = len(calls) == 1 and len(mk) == 1
+    if ok:
+        a, b = kwarg(calls[0], 'bonds_from_name'), kwarg(calls[0], 'bonds_from_dist')
+        c_, d_ = kwarg(mk[0], 'allow_name'), kwarg(mk[0], 'allow_dist')
+        ok = a is not None and b is not None and c_ is not None and d_ is not None and \
+            (u(a), u(b), u(c_), u(d_)) == ('bonds_from_name', 'bonds_from_dist', 'bonds_from_name', 'bonds_from_dist')
+    ck.ob('KW-wiring', cli.loc(p2u), ok, 'the two flags reach MakeBonds(allow_name=.., allow_dist=..) uncrossed', key='KW-wiring|bonds-from|passed')
